@@ -171,3 +171,76 @@ def run_straightline(stmts, env: dict, stubs: dict | None = None, call_hook=None
             except (Unsupported, Exception):
                 continue
     return env
+
+
+class _Leave(Exception):
+    pass
+
+
+def _unbind(node, env):
+    for n in ast.walk(node):
+        if isinstance(n, ast.Name) and isinstance(n.ctx, ast.Store):
+            env.pop(n.id, None)
+
+
+def run_body(stmts, env: dict, stubs: dict | None = None) -> dict:
+    """Run one pass over a statement list on concrete values.  Branches are chosen by evaluating their tests (a test that
+    cannot be evaluated raises Unsupported: nothing is guessed); calls used as statements are no-ops except add / append /
+    update / extend on a container that lives in `env`; a statement that cannot be evaluated unbinds what it would have
+    bound.  continue / break / return / raise end the pass."""
+    try:
+        _run(stmts, env, stubs)
+    except _Leave:
+        pass
+    return env
+
+
+def _run(stmts, env, stubs):
+    for st in stmts:
+        if isinstance(st, ast.If):
+            _run(st.body if ceval(st.test, env, stubs) else st.orelse, env, stubs)
+        elif isinstance(st, ast.Assign):
+            try:
+                v = ceval(st.value, env, stubs)
+            except Exception:
+                for t in st.targets:
+                    _unbind(t, env)
+                continue
+            for t in st.targets:
+                if isinstance(t, (ast.Name, ast.Tuple, ast.List)):
+                    try:
+                        _bind(t, v, env)
+                    except Exception:
+                        _unbind(t, env)
+        elif isinstance(st, ast.AnnAssign):
+            if st.value is not None and isinstance(st.target, ast.Name):
+                try:
+                    env[st.target.id] = ceval(st.value, env, stubs)
+                except Exception:
+                    env.pop(st.target.id, None)
+        elif isinstance(st, ast.AugAssign):
+            if isinstance(st.target, ast.Name):
+                try:
+                    op = _BIN[type(st.op)]
+                    env[st.target.id] = op(env[st.target.id], ceval(st.value, env, stubs))
+                except Exception:
+                    env.pop(st.target.id, None)
+        elif isinstance(st, ast.Expr):
+            c = st.value
+            if isinstance(c, ast.Call) and isinstance(c.func, ast.Attribute) and isinstance(c.func.value, ast.Name) and c.func.value.id in env \
+                    and c.func.attr in ("add", "append", "update", "extend") and len(c.args) == 1:
+                box = env[c.func.value.id]
+                try:
+                    v = ceval(c.args[0], env, stubs)
+                    if isinstance(box, (set, list, dict)):
+                        box = type(box)(box)          # containers of the initial environment are not shared between passes
+                        getattr(box, c.func.attr)(v)
+                        env[c.func.value.id] = box
+                except Exception:
+                    env.pop(c.func.value.id, None)
+        elif isinstance(st, (ast.Continue, ast.Break, ast.Return, ast.Raise)):
+            raise _Leave
+        elif isinstance(st, ast.Pass):
+            pass
+        else:
+            _unbind(st, env)
